@@ -234,6 +234,127 @@ proof fn lemma_time_shift_inverse(t: Time, d: TimeDelta, a: Time, b: Time)      
 {
 }
 
+// ---- calendar values (C16): chrono::DateTime<Utc> as an abstract instant in nanoseconds (A-CHRONO).  The constructors and
+// accessors below are chrono's documented contracts; tevec's wrappers are checked against them.
+pub struct Second;
+pub struct Millisecond;
+pub struct Microsecond;
+pub struct Nanosecond;
+impl TimeUnitTrait for Second { open spec fn unit_spec() -> TimeUnit { TimeUnit::Second } #[verifier::external_body] fn unit() -> TimeUnit { TimeUnit::Second } }
+impl TimeUnitTrait for Millisecond { open spec fn unit_spec() -> TimeUnit { TimeUnit::Millisecond } #[verifier::external_body] fn unit() -> TimeUnit { TimeUnit::Millisecond } }
+impl TimeUnitTrait for Microsecond { open spec fn unit_spec() -> TimeUnit { TimeUnit::Microsecond } #[verifier::external_body] fn unit() -> TimeUnit { TimeUnit::Microsecond } }
+impl TimeUnitTrait for Nanosecond { open spec fn unit_spec() -> TimeUnit { TimeUnit::Nanosecond } #[verifier::external_body] fn unit() -> TimeUnit { TimeUnit::Nanosecond } }
+#[verifier::external_body]
+pub struct CrDateTime { _p: u8 }
+impl CrDateTime {
+    pub uninterp spec fn ns(&self) -> int;
+    #[verifier::external_body]
+    pub fn from_timestamp(secs: i64, nsecs: u32) -> (r: Option<CrDateTime>)
+        ensures r matches Some(d) ==> d.ns() == secs * 1_000_000_000 + nsecs,
+    { unimplemented!() }
+    #[verifier::external_body]
+    pub fn from_timestamp_millis(ms: i64) -> (r: Option<CrDateTime>)
+        ensures r matches Some(d) ==> d.ns() == ms * 1_000_000,
+    { unimplemented!() }
+    #[verifier::external_body]
+    pub fn from_timestamp_micros(us: i64) -> (r: Option<CrDateTime>)
+        ensures r matches Some(d) ==> d.ns() == us * 1_000,
+    { unimplemented!() }
+    #[verifier::external_body]
+    pub fn from_timestamp_nanos(n: i64) -> (r: CrDateTime)
+        ensures r.ns() == n,
+    { unimplemented!() }
+    // accessors floor toward the past (chrono: "number of non-leap seconds / milliseconds / .. since the epoch")
+    #[verifier::external_body]
+    pub fn timestamp(&self) -> (r: i64)
+        ensures r * 1_000_000_000 <= self.ns() < (r + 1) * 1_000_000_000,
+    { unimplemented!() }
+    #[verifier::external_body]
+    pub fn timestamp_millis(&self) -> (r: i64)
+        ensures r * 1_000_000 <= self.ns() < (r + 1) * 1_000_000,
+    { unimplemented!() }
+    #[verifier::external_body]
+    pub fn timestamp_micros(&self) -> (r: i64)
+        ensures r * 1_000 <= self.ns() < (r + 1) * 1_000,
+    { unimplemented!() }
+    #[verifier::external_body]
+    pub fn timestamp_nanos_opt(&self) -> (r: Option<i64>)
+        ensures r matches Some(v) ==> v == self.ns(), (i64::MIN <= self.ns() <= i64::MAX) ==> r.is_some(),
+    { unimplemented!() }
+}
+// `x.into()` for x: i64 is From<i64> for DateTime<U> = DateTime::new (extracted below as `from_i64`) (R12: `.into()` -> `.into_dt()`)
+pub trait IntoDt<U: TimeUnitTrait>: Sized {
+    spec fn raw(self) -> i64;
+    fn into_dt(self) -> (r: DateTime<U>) ensures r.0 == self.raw();
+}
+impl<U: TimeUnitTrait> IntoDt<U> for i64 {
+    open spec fn raw(self) -> i64 { self }
+    fn into_dt(self) -> DateTime<U> { from_i64::<U>(self) }
+}
+//@fn name=from crate=tea-time ctx="impl<U: TimeUnitTrait> From<i64> for DateTime<U>" as=from_i64 props=C16
+//@sig pub fn from_i64<U: TimeUnitTrait>(dt: i64) -> (r: DateTime<U>)
+//@spec
+    ensures r.0 == dt
+//@end
+
+//@fn name=try_from crate=tea-time ctx="impl TryFrom<DateTime<Second>> for CrDateTime<Utc>" as=try_from_s props=C16 arith=C16
+//@sig pub fn try_from_s(dt: DateTime<Second>) -> (r: TResult<CrDateTime>)
+//@closure 1 mode=annotate params="" ret="(e: TError)"
+//@spec
+    ensures r matches Ok(d) ==> d.ns() == dt.0 * 1_000_000_000       // #C16 calendar_value_is_the_same_instant
+//@end
+//@fn name=try_from crate=tea-time ctx="impl TryFrom<DateTime<Millisecond>> for CrDateTime<Utc>" as=try_from_ms props=C16 arith=C16
+//@sig pub fn try_from_ms(dt: DateTime<Millisecond>) -> (r: TResult<CrDateTime>)
+//@closure 1 mode=annotate params="" ret="(e: TError)"
+//@spec
+    ensures r matches Ok(d) ==> d.ns() == dt.0 * 1_000_000           // #C16 calendar_value_is_the_same_instant
+//@end
+//@fn name=try_from crate=tea-time ctx="impl TryFrom<DateTime<Microsecond>> for CrDateTime<Utc>" as=try_from_us props=C16 arith=C16
+//@sig pub fn try_from_us(dt: DateTime<Microsecond>) -> (r: TResult<CrDateTime>)
+//@closure 1 mode=annotate params="" ret="(e: TError)"
+//@spec
+    ensures r matches Ok(d) ==> d.ns() == dt.0 * 1_000               // #C16 calendar_value_is_the_same_instant
+//@end
+//@fn name=try_from crate=tea-time ctx="impl TryFrom<DateTime<Nanosecond>> for CrDateTime<Utc>" as=try_from_ns props=C16 arith=C16
+//@sig pub fn try_from_ns(dt: DateTime<Nanosecond>) -> (r: TResult<CrDateTime>)
+//@spec
+    ensures r matches Ok(d) ==> d.ns() == dt.0                        // #C16 calendar_value_is_the_same_instant
+//@end
+
+//@fn name=from crate=tea-time ctx="impl From<CrDateTime<Utc>> for DateTime<Second>" as=from_cr_s props=C16 arith=C16
+//@sig pub fn from_cr_s(dt: CrDateTime) -> (r: DateTime<Second>)
+//@replace .into() => .into_dt()
+//@spec
+    ensures r.0 * 1_000_000_000 <= dt.ns() < (r.0 + 1) * 1_000_000_000     // #C16 calendar_to_unit_truncates_toward_the_past
+//@end
+//@fn name=from crate=tea-time ctx="impl From<CrDateTime<Utc>> for DateTime<Millisecond>" as=from_cr_ms props=C16 arith=C16
+//@sig pub fn from_cr_ms(dt: CrDateTime) -> (r: DateTime<Millisecond>)
+//@replace .into() => .into_dt()
+//@spec
+    ensures r.0 * 1_000_000 <= dt.ns() < (r.0 + 1) * 1_000_000             // #C16 calendar_to_unit_truncates_toward_the_past
+//@end
+//@fn name=from crate=tea-time ctx="impl From<CrDateTime<Utc>> for DateTime<Microsecond>" as=from_cr_us props=C16 arith=C16
+//@sig pub fn from_cr_us(dt: CrDateTime) -> (r: DateTime<Microsecond>)
+//@replace .into() => .into_dt()
+//@spec
+    ensures r.0 * 1_000 <= dt.ns() < (r.0 + 1) * 1_000                     // #C16 calendar_to_unit_truncates_toward_the_past
+//@end
+//@fn name=from crate=tea-time ctx="impl From<CrDateTime<Utc>> for DateTime<Nanosecond>" as=from_cr_ns props=C16 arith=C16
+//@sig pub fn from_cr_ns(dt: CrDateTime) -> (r: DateTime<Nanosecond>)
+//@replace .into() => .into_dt()
+//@spec
+    requires i64::MIN <= dt.ns() <= i64::MAX,       // within the representable range of the unit (otherwise a documented panic)
+    ensures r.0 == dt.ns()                                                 // #C16 calendar_to_unit_truncates_toward_the_past
+//@end
+
+// to the calendar type and back is the identity (over the two contracts)
+proof fn lemma_calendar_round_trip(x: int, q: int, n: int, y: int)       // #C16 calendar_round_trip
+    requires q >= 1, n == x * q, y * q <= n < (y + 1) * q,
+    ensures y == x,
+{
+    assert(y == x) by(nonlinear_arith) requires q >= 1, n == x * q, y * q <= n, n < (y + 1) * q;
+}
+
 // finer and back is the identity (corollary of the two clauses above, stated over the contract only)
 proof fn lemma_finer_and_back(x: int, q: int, y: int, z: int)
     requires q >= 1, y == x * q, z * q <= y < (z + 1) * q,
